@@ -122,6 +122,18 @@ def load_source(rel):
 def apply_site_rewrites(text, rewrites, log, where):
     for rw in rewrites:
         old, new = rw[0], rw[1]
+        if callable(new):
+            # a computed replacement (its docstring says what it does); logged by that description
+            fn_ = new
+            desc = (fn_.__doc__ or "<computed replacement>").strip()
+            cnt = rw[2] if len(rw) > 2 else 1
+            found = len(old.findall(text))
+            if cnt != "*" and found != cnt:
+                raise AnchorLost(f"{where}: site pattern {old.pattern!r} matches {found}x, expected {cnt}")
+            text = old.sub(fn_, text)
+            if found:
+                log.append({"where": where, "kind": "site-computed", "old": old.pattern, "new": desc, "count": found})
+            continue
         cnt = rw[2] if len(rw) > 2 else 1
         if cnt == "*":      # optional rewrite: any number of occurrences, including none
             if isinstance(old, re.Pattern):
